@@ -43,3 +43,19 @@ def register(reg):
         "driven by every script of three child pairs with stub operators.",
         "Equal-length finite vectors; amounts keep clear of the 1e-10 threshold.",
         "DESIGN.md section 5 C20")
+
+    reg("C15", "ENUM", "exploration",
+        "exhaustive enumeration of a finite box lattice per benchmark and dimension (lattice only)",
+        "Each single-objective benchmark x each accepted dimension x every point of a box lattice including both bounds, the "
+        "documented optimum and its axis neighbours, as Python floats and numpy scalars; XinSheYang3 with its random draws "
+        "owned and enumerated. Decides totality, value at the optimum and 'no lattice point better' on that finite set; "
+        "a dip narrower than the lattice pitch is not seen (stated limit of the technique on a continuum).",
+        "Tolerance 1e-3 absolute as in the statement; lattice pitch as listed in the evidence.",
+        "DESIGN.md section 5 C15")
+    reg("C16", "ENUM", "exploration",
+        "exhaustive enumeration of a finite box lattice per problem family (lattice only)",
+        "DTLZ1-4 for m=2..5, ZDT1 and the bi-objective problem on a lattice with position variables on a full grid and distance "
+        "variables deviating from 0.5 in every <=2-subset to every level; identities recomputed with an independent g. The "
+        "identities are algebraic, so one generic lattice point per variable role already separates index/sin-cos/slice mistakes.",
+        "Lattice only; tolerance 1e-9 relative to (1+g).",
+        "DESIGN.md section 5 C16")
